@@ -266,7 +266,10 @@ theorem toeplitzOK.toepK {p : Params} (h : toeplitzOK p) : ∃ K, 1 ≤ K ∧ to
   exact ⟨K, hK, by simp [ListSem.toepK, hs]⟩
 
 /-- **validity of the leaf parameters**, class by class: what the Python constructors accept.  The classes no rule
-looks into (identity, scalar, broadcasting diagonal, dense, observation matrix, opaque) are not constrained; a
+looks into (identity, scalar, broadcasting diagonal, observation matrix, opaque, and dense einsum blocks with one
+block array per leaf) are not constrained; a dense einsum leaf with ONE block array shared by all the leaves
+(`denseShared`: the case the denotation interprets by the einsum kernel) is `denseOK` (FuraxProofs/Sem/DenseLeaf.lean:
+the subscripts parse, the transposer accepts them, every leaf fits its term exactly); a
 Toeplitz leaf whose band array has a last axis (rank `≥ 1`, batched or not: the case the denotation interprets by the
 kernel, `toepK`) is `toeplitzOK`; the degenerate one with a rank-0 band array (left to the environment; Python
 refuses it) is not constrained. -/
@@ -281,6 +284,7 @@ def listLeafOK : LeafCls → Params → Prop
   | .hwp, p => stokesOK .hwp p
   | .polarizer, p => stokesOK .polarizer p
   | .diagonal, p => diagonalOK p
+  | .dense, p => denseShared p = true → denseOK p
   | _, _ => True
 
 theorem listLeafOK_identity (s : Struct) : listLeafOK .identity { inS := s, outS := s } := trivial
